@@ -783,13 +783,32 @@ Proof.
   apply nopanic_bind; [apply np_update_hosts|]. intros u. destruct (negb (fst u)); [exact I|]. pnp.
 Qed.
 
-(* what still crashes (known findings C20-P1, C20-P2): re-pointing a server at itself ... *)
+(* switching optimisation off before a switchover (after the repair 923b14a: unregistered members of the
+   active list are skipped) cannot crash once the old master is a registered host - which the repaired
+   stateManager (d1e5675) establishes - whatever the active list and the optimisation registry name *)
+Theorem disable_all_nopanic master nodes : nopanic (opt_disable_all_k true master nodes).
+Proof.
+  unfold opt_disable_all_k, opt_disable_all, dcs_children_, repl_settings. cbn [bind nopanic]. intros r.
+  assert (G : forall names rs, nopanic
+    (errs <- forM names (fun h => if mem_host h nodes then opt_disable h rs else Ret None) ;;
+     Ret (if existsb (fun e : oerr => match e with Some _ => true | None => false end) errs then Some EOther else None))).
+  { intros names rs. apply nopanic_bind; [|intros; exact I]. apply nopanic_forM. intros h _.
+    destruct (mem_host h nodes); [|exact I]. unfold opt_disable, set_repl_settings, opt_delete_host, exec_. pnp. }
+  destruct r as [er| | | | | | | | | | | |l| |]; cbn [bind snd fst nopanic]; intros r2;
+    destruct r2; cbn [bind snd fst]; apply G.
+Qed.
+
+(* enabling semi-sync on the joining replicas (after the repair becaa66) cannot crash, whatever the
+   cluster view contains: a host without replica state or a recorded master without master state
+   fails to join *)
+Theorem enable_loop_nopanic env ms l : forall w active, nopanic (enable_loop env ms l w active).
+Proof.
+  induction l as [|h r IH]; intros w active; cbn [enable_loop]; [exact I|].
+  apply nopanic_bind.
+  - unfold enable_semi_sync_on_slave, restart_replica, restart_io, exec_. pnp.
+  - intros [e|]; [apply IH|]. apply nopanic_bind; [unfold set_default_repl_settings, repl_settings, exec_; pnp|]. intros _. apply IH.
+Qed.
+
+(* what still crashes (known finding C20-P1): re-pointing a server at itself *)
 Theorem change_master_to_itself_panics cfg h : runs (perform_change_master cfg h h) [] (Panicked 2079).
 Proof. unfold perform_change_master. rewrite N.eqb_refl. cbn. auto. Qed.
-(* ... and a switchover whose candidate list names a host the process has no handle for *)
-Theorem disable_all_with_unknown_host_panics master nodes :
-  exists tr, runs (opt_disable_all_k false master nodes) tr (Panicked 50114).
-Proof.
-  exists [ {| ev_site := 50153; ev_call := DcsChildren POptNodes; ev_resp := RHosts [] |} ].
-  unfold opt_disable_all_k, dcs_children_. cbn. auto.
-Qed.
